@@ -5,7 +5,6 @@ from __future__ import annotations
 from hypothesis import strategies as st
 
 import btclib.script.taproot as tap
-from btclib.bip32 import derive_, rootxprv_from_seed_, xpub_from_xprv_
 from btclib.curves.curve import is_libsecp256k1_serving, set_libsecp256k1_serving
 from btclib.exceptions import BTClibTypeError, BTClibValueError
 from btclib.script.engine import taproot_unwrap_script
@@ -88,6 +87,10 @@ def to_lib(t):
     return [to_lib(t[1]), to_lib(t[2])]
 
 
+def _has_odd_version(t) -> bool:
+    return bool(t[1] & 1) if t[0] == "leaf" else _has_odd_version(t[1]) or _has_odd_version(t[2])
+
+
 def to_ref(t):
     if t[0] == "leaf":
         return ("leaf", t[1] & 0xFE, ser_cmds(t[2]))
@@ -96,6 +99,9 @@ def to_ref(t):
 
 def depth(t):
     return 0 if t[0] == "leaf" else 1 + max(depth(t[1]), depth(t[2]))
+
+
+NUMS_X = bytes.fromhex("50929b74c1a04954b78b4b6035e97a5e078a5a0f28ec96d547bfee9ace803ac0")  # BIP341: H = lift_x(...), nobody's key
 
 
 def nleaves(t):
@@ -124,6 +130,19 @@ def key_spellings(q: int, how: str, seed: bytes):
         return bytes([2 + (Pt[1] & 1)]) + x
     if how == "sec65":
         return b"\x04" + x + Pt[1].to_bytes(32, "big")
+    if how == "sec65-hex":
+        return (b"\x04" + x + Pt[1].to_bytes(32, "big")).hex()
+    if how in ("wif", "wif-uncompressed"):
+        from vlib.models import base58_ref
+
+        return base58_ref.check_encode(b"\x80" + q.to_bytes(32, "big") + (b"\x01" if how == "wif" else b""))
+    if how in ("xprv", "xpub"):
+        from vlib.models import base58_ref
+
+        chain = b"\x07" * 32
+        if how == "xprv":
+            return base58_ref.check_encode(bytes.fromhex("0488ade4") + bytes(9) + chain + b"\x00" + q.to_bytes(32, "big"))
+        return base58_ref.check_encode(bytes.fromhex("0488b21e") + bytes(9) + chain + bytes([2 + (Pt[1] & 1)]) + x)
     if how == "point":
         return Pt
     return q
@@ -132,7 +151,7 @@ def key_spellings(q: int, how: str, seed: bytes):
 @st.composite
 def commit_case(draw, max_leaves=8):
     return {"q": draw(st.one_of(st.sampled_from([1, 2, 3, N - 1]), st.integers(1, N - 1))), "tree": draw(st.one_of(st.none(), tree(max_leaves))),
-            "spelling": draw(st.sampled_from(["prv-bytes", "prv-hex", "sec33", "sec33-hex", "sec65", "point", "prv-int"])), "dup_leaf": draw(st.booleans()), "backend": draw(st.booleans()),
+            "spelling": draw(st.sampled_from(["prv-bytes", "prv-hex", "sec33", "sec33-hex", "sec65", "sec65-hex", "point", "prv-int", "wif", "wif-uncompressed", "xprv", "xpub", "nums"])), "dup_leaf": draw(st.booleans()), "backend": draw(st.booleans()),
             "root": draw(st.binary(min_size=32, max_size=32)).hex()}
 
 
@@ -143,7 +162,10 @@ def check_commit(case):
         t = ["branch", t[1], ["branch", t[1], t[2]]]  # a repeated subtree
     Pt = b340.point_mul(b340.G, q)
     x = Pt[0].to_bytes(32, "big")
-    tags = [f"leaves={min(nleaves(t), 4) if t else 0}", f"bindings={case['backend']}"]
+    nums = case["spelling"] == "nums" and t is not None  # no internal key: BIP341's unspendable point, script path only
+    if nums:
+        x = NUMS_X
+    tags = [f"leaves={min(nleaves(t), 4) if t else 0}", f"bindings={case['backend']}", "spelling=" + ("nums" if nums else "prv-int" if case["spelling"] == "nums" else case["spelling"])]
     with backend(case["backend"]):
         if t is None:
             h = b""
@@ -152,8 +174,14 @@ def check_commit(case):
             leaves, h = ref.tree_helper(to_ref(t))
         par, Q = ref.taproot_tweak_pubkey(x, h)
         tags.append(f"parity={par}")
-        key = key_spellings(q, case["spelling"], b"")
-        got = tap.output_pubkey(key, to_lib(t) if t else None)
+        key = None if nums else key_spellings(q, "prv-int" if case["spelling"] == "nums" else case["spelling"], b"")
+        try:
+            got = tap.output_pubkey(key, to_lib(t) if t else None)
+        except BTClibValueError:
+            if t is not None and _has_odd_version(t):
+                # BIP341 leaf versions are even; a library may drop the low bit of an odd one (this one does) or refuse it
+                return Outcome(False, (*tags, "odd-leaf-version-refused"))
+            raise
         if got != (Q, par):
             raise Violation(f"commitment:output-key:spelling={case['spelling']}:bindings={case['backend']}", f"lib={got[0].hex()},{got[1]} ref={Q.hex()},{par} tree={t}")
         if tap.output_pubkey_from_merkle_root(x, h) != (Q, par):
@@ -163,10 +191,16 @@ def check_commit(case):
         if tap.output_pubkey_from_merkle_root(x, r) != (Qr, pr):
             raise Violation("commitment:from-arbitrary-root", "")
         # private side
+        if nums:
+            d = ref.taproot_tweak_seckey(q, h)  # nobody knows the key behind the unspendable point: the private side is asked of q all the same
+            Q_own = ref.taproot_tweak_pubkey(Pt[0].to_bytes(32, "big"), h)[1]
+        else:
+            Q_own = Q
         d = tap.output_prvkey(q, to_lib(t) if t else None)
-        if d != ref.taproot_tweak_seckey(q, h) or b340.point_mul(b340.G, d)[0].to_bytes(32, "big") != Q:
+        # (the output key is x-only: d and n - d both open it, and which of the two is returned is the implementation's choice)
+        if d not in (ref.taproot_tweak_seckey(q, h), N - ref.taproot_tweak_seckey(q, h)) or b340.point_mul(b340.G, d)[0].to_bytes(32, "big") != Q_own:
             raise Violation(f"commitment:output-prvkey:bindings={case['backend']}", f"q={q:x}")
-        if tap.output_prvkey_from_merkle_root(q, r) != ref.taproot_tweak_seckey(q, r):
+        if tap.output_prvkey_from_merkle_root(q, r) not in (ref.taproot_tweak_seckey(q, r), N - ref.taproot_tweak_seckey(q, r)):
             raise Violation("commitment:prvkey-from-root", "")
         # proofs for every leaf
         if t is not None:
@@ -288,9 +322,11 @@ def check_refusal(case):
             else:
                 # fault injection: the TapTweak hash of this one call is >= n
                 real = tap.tagged_hash
+                hit = [0]
 
                 def fake(tag, m, *a, **k):
                     if tag == b"TapTweak":
+                        hit[0] += 1
                         return (N + case["x"] % (2**256 - N)).to_bytes(32, "big")
                     return real(tag, m, *a, **k)
 
@@ -307,6 +343,9 @@ def check_refusal(case):
                             raise BTClibValueError("refused as False")
                 finally:
                     tap.tagged_hash = real
+                if not hit[0]:
+                    # the library no longer reaches its TapTweak hash through the name this injection replaces: there was no out-of-range tweak to refuse
+                    return Outcome(False, (kind, "injection-not-in-effect"))
         except REFUSAL:
             return Outcome(True, (kind, f"bindings={case['backend']}"))
     raise Violation(f"refusals:answered:{kind}:bindings={case['backend']}", repr(r)[:200])
@@ -335,7 +374,12 @@ def check_deep(case):
             raise Violation("deep:output-key", f"depth={case['depth']}")
         i = case["leaf"] % len(leaves)
         (ver, script), path = leaves[i]
-        cmds, control = tap.input_script_sig(b'\x02' + x, to_lib(t), i)
+        try:
+            cmds, control = tap.input_script_sig(b'\x02' + x, to_lib(t), i)
+        except BTClibValueError:
+            if len(path) // 32 > 128:
+                return Outcome(True, ("deep-leaf-control-refused",))  # a leaf below depth 128 has no control block to be spent with
+            raise
         if control != bytes([ver | par]) + x + path:
             raise Violation("deep:control", f"depth={case['depth']} leaf={i}")
         try:
@@ -349,9 +393,22 @@ def check_deep(case):
     return Outcome(True, (f"depth={case['depth']}", f"pathlen={'>128' if pl > 128 else '=128' if pl == 128 else '<128'}"))
 
 
+def _run_boundary(unit, col) -> None:
+    depth, leaf_, bk = unit
+    case = {"q": 0x1234567 + depth, "depth": depth, "leaf": leaf_, "backend": bk}
+    try:
+        out = check_deep(case)
+    except Violation as v:
+        col.fail(v.signature, {"unit": unit}, v.detail)
+        return
+    col.bulk(1, 1, sample={"unit": unit}, tags={t: 1 for t in (out.tags if out else ())})
+
+
 SUBCHECKS = [
     SubCheck("commitment_and_proofs", check_commit, "output key/parity, tweaked private key, merkle root and every leaf's control block vs BIP341 reference; non-trivial: >=3 leaves or unbalanced tree, or key-only with odd parity", lambda: commit_case(8), quick=700, thorough=12000),
     SubCheck("tamper", check_tamper, "one bit of control block / script / output key flipped, control truncated/extended, path elements swapped/dropped/added: verdict equals the reference and an altered proof never verifies", tamper_case, quick=1100, thorough=20000),
     SubCheck("refusals", check_refusal, "internal x not on curve / >= p / wrong size refused; tweak >= n (forced through tagged_hash) refused, same on both backends", refusal_case, quick=300, thorough=3000),
+    SubCheck("depth_boundary", lambda c: None, "the 128-element path limit met on purpose: comb trees of depth 127, 128 and 129 x the three deepest leaves x both back ends (18 units, the same at every seed)",
+             units=lambda tier: [[d, leaf_, bk] for d in (127, 128, 129) for leaf_ in (-1, -2, -3) for bk in (True, False)], run_unit=lambda unit, col: _run_boundary(unit, col), exhaustive=True),
     SubCheck("deep_trees", check_deep, "comb trees of depth 1..129: output key, control block of any leaf, and the 128-element path limit", deep_case, quick=64, thorough=600),
 ]
